@@ -288,6 +288,24 @@ def mutants(schema, doc, limit_per_rewrite=None):
             m["defs"][i]["sels"].append(leaf("__typename", alias="zzk", dirs=[{"name": "qd", "args": [["n", ["var", "zzObj"]]]}] if "qd" in (schema.get("directives") or {}) else []))
             yield "variable_non_input_type", kind_of(schema, bad).lower(), False, m
 
+    # ---- subscriptions: more than one root field (direct / through inline / through named fragment)
+    sub_ops = [i for i in op_idx if doc["defs"][i]["type"] == "subscription"]
+    sroot = schema["roots"].get("subscription")
+    for rank, i in enumerate(sub_ops):
+        which = "first_subscription" if rank == 0 else "later_subscription"
+        extra = leaf("__typename", alias="zzSecondRoot")
+        fnames = [fn for fn in fields_of(schema, sroot)] if sroot else []
+        m = mk()
+        m["defs"][i]["sels"].append(copy.deepcopy(extra))
+        yield "subscription_two_roots", "direct_" + which, rank > 0, m
+        m = mk()
+        m["defs"][i]["sels"] = [{"k": "inline", "on": sroot, "dirs": [], "sels": m["defs"][i]["sels"] + [copy.deepcopy(extra)], "id": None}]
+        yield "subscription_two_roots", "via_inline_fragment_" + which, True, m
+        m = mk()
+        m["defs"].append({"k": "frag", "name": "ZzSubRoots", "on": sroot, "dirs": [], "sels": m["defs"][i]["sels"] + [copy.deepcopy(extra)]})
+        m["defs"][i]["sels"] = [{"k": "spread", "name": "ZzSubRoots", "dirs": [], "id": None}]
+        yield "subscription_two_roots", "via_named_fragment_" + which, True, m
+
     # ---- site rewrites
     for s in S:
         k = s["kind"]
